@@ -173,22 +173,32 @@ class Timeout(BaseException):
 
 
 class alarm:
-    """SIGALRM guard (main thread of a worker process only)."""
+    """SIGALRM guard (main thread of a worker process only).  Guards nest: a process has a single alarm, so an inner
+    guard never outlasts the enclosing one and re-arms it (with what is left of its time) when it ends."""
 
     def __init__(self, seconds):
         self.seconds = int(seconds)
 
     def __enter__(self):
+        import time
+
         def handler(signum, frame):
             raise Timeout()
 
         self.old = signal.signal(signal.SIGALRM, handler)
-        signal.alarm(self.seconds)
+        self.t0 = time.monotonic()
+        self.outer_left = signal.alarm(self.seconds)  # seconds an enclosing guard still had (0: none)
+        if self.outer_left and self.outer_left < self.seconds:
+            signal.alarm(self.outer_left)
         return self
 
     def __exit__(self, *a):
+        import time
+
         signal.alarm(0)
         signal.signal(signal.SIGALRM, self.old)
+        if self.outer_left:
+            signal.alarm(max(1, self.outer_left - int(time.monotonic() - self.t0)))
         return False
 
 
